@@ -312,8 +312,24 @@ Fixpoint lookup_shape (seen : list (key * list (string * kind))) (k : key) :=
   | (k', sh) :: t => if key_eqb k' k then Some sh else lookup_shape t k
   end.
 
-(* every record has a well-typed template and a flow key, and all records of one flow use the
-   same template ("both nodes export the same template") *)
+(* Two templates are EQUIVALENT when every lookup by name gives the same answer in both: each
+   field of either template is found under its name, with the same concrete kind, in the other.
+   The ORDER of the fields is irrelevant (the aggregation code finds every field through
+   GetInfoElementWithValue(name)).  For templates without duplicated names this says exactly:
+   the same SET of (name, kind) fields - any permutation of one another
+   (Agg_lemmas.shape_equiv_nodup_iff, shape_equiv_perm); identical templates are equivalent
+   whatever they contain (shape_eqb_equiv). *)
+Definition okind_eqb (a b : option kind) : bool :=
+  match a, b with
+  | Some x, Some y => kind_eqb x y
+  | None, None => true
+  | _, _ => false
+  end.
+Definition shape_equiv (a b : list (string * kind)) : bool :=
+  forallb (fun f => okind_eqb (kind_at a (fst f)) (kind_at b (fst f))) (a ++ b).
+
+(* every record has a well-typed template and a flow key, and all records of one flow use
+   equivalent templates ("both nodes export the same fields", in any order) *)
 Fixpoint typed_from (c : agg_config) (seen : list (key * list (string * kind))) (h : list op) : bool :=
   match h with
   | [] => true
@@ -323,9 +339,28 @@ Fixpoint typed_from (c : agg_config) (seen : list (key * list (string * kind))) 
       match rec_key r with
       | None => false
       | Some k => match lookup_shape seen k with
-                  | Some sh => shape_eqb sh (shape r) && typed_from c seen t
+                  | Some sh => shape_equiv sh (shape r) && typed_from c seen t
                   | None => typed_from c ((k, shape r) :: seen) t
                   end
       end
   end.
 Definition typed_history (c : agg_config) (h : list op) : bool := typed_from c [] h.
+
+(* the stronger requirement used before: all records of one flow use the same template, field
+   for field IN THE SAME ORDER.  Kept only to state that typed_history is weaker
+   (Agg_lemmas.typed_history_ordered_incl). *)
+Fixpoint typed_from_ordered (c : agg_config) (seen : list (key * list (string * kind))) (h : list op) : bool :=
+  match h with
+  | [] => true
+  | OpReset _ :: t => typed_from_ordered c seen t
+  | OpRec r :: t =>
+      typed_shape c (shape r) &&
+      match rec_key r with
+      | None => false
+      | Some k => match lookup_shape seen k with
+                  | Some sh => shape_eqb sh (shape r) && typed_from_ordered c seen t
+                  | None => typed_from_ordered c ((k, shape r) :: seen) t
+                  end
+      end
+  end.
+Definition typed_history_ordered (c : agg_config) (h : list op) : bool := typed_from_ordered c [] h.
